@@ -5,6 +5,8 @@
 //! checks on all ordered pairs: `==`/`!=` <=> same key; same key => same `Hash` (fixed-key SipHash);
 //! for ordered types `cmp`/`partial_cmp`/operators/`max`/`min`/sorting = the order of the keys.
 mod common;
+#[path = "../../c02/src/zoo_cfg.rs"]
+pub mod zoo_cfg;
 mod fields;
 mod points;
 mod polys;
@@ -15,6 +17,7 @@ fn relations(tier: Tier) -> Vec<Rel> {
     let mut out = Vec::new();
     fields::relations(&mut out, tier);
     points::toy_relations(&mut out, tier);
+    points::toy_ext_relations(&mut out, tier);
     points::shipped_relations(&mut out, tier);
     points::pairing_relations(&mut out, tier);
     polys::relations(&mut out, tier);
@@ -24,7 +27,7 @@ fn relations(tier: Tier) -> Vec<Rel> {
 fn main() {
     vh_core::engine::main(PropSpec {
         id: "C19",
-        rule: "Each case builds 8-45 values with a known relation: field elements (90 zoo prime fields, 9 shipped prime fields, 14 extension towers Fp2..Fp12) as a, b (independent / same value rebuilt / exactly one coordinate or bit differs / coordinates rotated / a*R), c, and the same elements reached by other operation sequences (a+b vs b+a, (a*b)/b, -(-a), through bytes, strings, BigInt, coordinates); BigInt<N> (N = 1..25) with limbs equal / one limb or bit changed / reversed; curve points (all ordered pairs of points of 15 toy curves under 3 representative patterns, 16 shipped curves) as affine, projective rescaled by lambda/nu/1, identity in every constructor form and as (x,y,0), results of P+Q in different orders and operand kinds; pairing outputs e(kP,Q), e(P,kQ), k*e(P,Q); dense and sparse polynomials from different operation orders. All ordered pairs of the values are compared against oracle keys. A case is non-trivial when it contains two distinct representations of one object (different rescalings, different operation sequences on a non-independent pair) or two values that differ in exactly one coordinate / limb / coefficient / sign; distinct = distinct decoded choice sequences.",
+        rule: "Each case builds 8-45 values with a known relation: field elements (the zoo prime fields, 9 shipped prime fields, 14 shipped extension towers Fp2..Fp12 and 15 Fp2/Fp3 towers over zoo prime fields without spare bit / with top limb 2^63 / hand-written configurations) as a, b (independent / same value rebuilt / exactly one coordinate or bit differs / coordinates rotated / a*R), c, and the same elements reached by other operation sequences (a+b vs b+a, (a*b)/b, -(-a), through bytes, strings, BigInt, coordinates); BigInt<N> (N = 1..25) with limbs equal / one limb or bit changed / reversed; curve points (all ordered pairs of points of the toy curves over prime fields and over F_49 under 3 representative patterns, sampled pairs of the toy curves over F_343 (all pairs in the thorough tier) with rescalings from the whole extension field, 16 shipped curves) as affine, projective rescaled by lambda/nu/1, identity in every constructor form and as (x,y,0), results of P+Q in different orders and operand kinds; pairing outputs e(kP,Q), e(P,kQ), k*e(P,Q) on bls12_381, bn254, mnt4_298, mnt6_298 (total order = documented tower order of the target-field value) and Miller-loop outputs of (P,Q), (kP,Q), ((P,Q),(kP,Q)); dense and sparse polynomials from different operation orders. All ordered pairs of the values are compared against oracle keys. A case is non-trivial when it contains two distinct representations of one object (different rescalings, different operation sequences on a non-independent pair) or two values that differ in exactly one coordinate / limb / coefficient / sign; distinct = distinct decoded choice sequences.",
         assumptions: &[
             "arithmetic results themselves are the subject of C01-C03/C06/C08; here only the relations between the produced values are judged",
             "Hash is observed through std's DefaultHasher::new() (SipHash-1-3, zero keys)",
